@@ -221,6 +221,26 @@ func scaleRecord(out io.Writer, args []string) error {
 			}
 			enc.Encode(e)
 		}
+		// QQ with ONE scale object at both ends, clamped: still the composition Unmap(Map(x)) - out-of-domain points are pinned
+		// to a bound, a degenerate domain sends everything to Min, a Log scale gives NaN for zero and the wrong sign
+		ce := mk("SetClamp")
+		ce.Clamp = 1
+		s.SetClamp(true)
+		switch t := s.(type) {
+		case *scale.Linear:
+			ce.After = b2i(t.Clamp)
+		case *scale.Log:
+			ce.After = b2i(t.Clamp)
+		}
+		enc.Encode(ce)
+		same := scale.QQ{Src: s, Dest: s}
+		for _, x := range []float64{point(), point(), point(), mn, mx, -mn, 0, mn + 3*(mx-mn)} {
+			e := mk("QQ")
+			zv := same.Map(x)
+			e.X, e.Z, e.Zc, e.W = mkfdy(x), mkfdy(zv), mkfdy(s.Unmap(s.Map(x))), mkfdy(width)
+			e.X2 = mkfdy(same.Unmap(zv))
+			enc.Encode(e)
+		}
 	}
 	return nil
 }
